@@ -760,10 +760,12 @@ pub(crate) fn check_if_response_is_matched(
 
     let (sampled_count, last_n_count) = if total_count - reorg_count > last_n_blocks {
         let difficulty_boundary: U256 = prev_request.difficulty_boundary().unpack();
-        let before_boundary_count = headers
-            .iter()
-            .take_while(|h| h.total_difficulty() < difficulty_boundary)
-            .count();
+        // The reorg headers precede the start block, whatever total difficulty they claim.
+        let before_boundary_count = reorg_count
+            + headers[reorg_count..]
+                .iter()
+                .take_while(|h| h.total_difficulty() < difficulty_boundary)
+                .count();
         let last_n_count = total_count - before_boundary_count;
         if last_n_count > last_n_blocks {
             (before_boundary_count - reorg_count, last_n_count)
